@@ -45,6 +45,7 @@ class Check(BaseCheck):
                 specs.append({'campaign': 'labels', 'n': 15000, 'seed': seed, 'i': i})
                 specs.append({'campaign': 'nonlabels', 'n': 15000, 'seed': seed, 'i': i})
                 specs.append({'campaign': 'zero_rows', 'n': 1500, 'seed': seed, 'i': i})
+                specs.append({'campaign': 'recompose', 'n': 1500, 'seed': seed, 'i': i})
             specs.append({'campaign': 'parser', 'n': 4000, 'seed': seed, 'i': 0})
         else:
             rstep = 1048576 // 16
@@ -54,6 +55,7 @@ class Check(BaseCheck):
                 specs.append({'campaign': 'labels', 'n': 200000, 'seed': seed, 'i': i})
                 specs.append({'campaign': 'nonlabels', 'n': 200000, 'seed': seed, 'i': i})
                 specs.append({'campaign': 'zero_rows', 'n': 20000, 'seed': seed, 'i': i})
+                specs.append({'campaign': 'recompose', 'n': 20000, 'seed': seed, 'i': i})
                 specs.append({'campaign': 'parser', 'n': 30000, 'seed': seed, 'i': i})
         specs.append({'campaign': 'confusables'})
         return specs
@@ -195,6 +197,28 @@ class Check(BaseCheck):
                 got.append(('mine', s))
             rec.nt(('nonlabel', s))
             rec.sample({'non_label': s})
+
+    def c_recompose(self, spec, rec, hc):
+        """to_label is a function of the indices and the absolute markers: parts whose label text is stale, in another case, missing or plain
+        wrong (a host that shifted a reference by editing the index) still recompose to the label of the indices"""
+        rnd = self.rng(spec)
+        PL = getattr(hc._mod, 'ParsedLabel', None)
+        if PL is None:
+            rec.inconcl('ParsedLabel is gone: recomposition from edited parts cannot be exercised')
+            return
+        for _ in range(spec['n']):
+            ci = rnd.choice([0, 25, 26, 701, 702, 16383, 18277, 18278, rnd.randrange(0, 26 ** 4), rnd.randrange(0, 200)])
+            ri = rnd.choice([0, 8, 9, 98, 99, 1048575, rnd.randrange(0, 10 ** 6), rnd.randrange(0, 10 ** 12)])
+            ca, ra = rnd.random() < 0.5, rnd.random() < 0.5
+            stale_col = rnd.choice([m.col_label(ci), m.col_label(ci).lower(), m.col_label(max(0, ci - 1)), m.col_label(ci + 1), 'A', '', None, 'zz', m.col_label(rnd.randrange(0, 20000))])
+            stale_row = rnd.choice([str(ri + 1), str(ri), str(ri + 2), '1', '', None, '007', str(rnd.randrange(1, 10 ** 6))])
+            row, col = PL(index=ri, label=stale_row, is_absolute=ra), PL(index=ci, label=stale_col, is_absolute=ca)
+            got = hc.to_label(row, col)
+            exp = ('$' if ca else '') + m.col_label(ci) + ('$' if ra else '') + str(ri + 1)
+            rec.case()
+            if got != exp:
+                rec.violation('C19/to_label:does-not-follow-the-indices', row_index=ri, column_index=ci, row_text=stale_row, column_text=stale_col, got=got, expected=exp)
+            rec.nt(('recompose', ri, ci, ra, ca, stale_col, stale_row))
 
     def c_zero_rows(self, spec, rec, hc):
         """letters then digits that are not a *positive row number without leading zeros* (A0, B007, $C$00): the statement calls them neither
